@@ -36,10 +36,13 @@ def read_rmol(mol):
 
 
 def coq_rmol(rm):
-    ats = "; ".join("(RA %d%%N %s %s %s %d%%N %s)" % (E.elem_code(el), E.cb(ar), E.cZ(hs), E.cZ(ch), mp, E.cnb(nb))
+    """Gallina literal of type rmol.  The 'neighbors' lists RDKit reports (rm["atoms"][i][5]) are NOT handed to the model: the
+    model computes them from the bonds (model/C01_Nbrs.v fill_nb: other ends of the atom's bonds, sorted by the bytes of the
+    symbols), so that sorted(nb.GetSymbol() for nb in atom.GetNeighbors()) is inside the model and compared on every case."""
+    ats = "; ".join("(RA0 %d%%N %s %s %s %d%%N)" % (E.elem_code(el), E.cb(ar), E.cZ(hs), E.cZ(ch), mp)
                     for el, ar, hs, ch, mp, nb in rm["atoms"])
     bs = "; ".join("(%d%%nat, %d%%nat, (%d))" % (b, e, o) for b, e, o in rm["bonds"])
-    return "(RM [%s] [%s])" % (ats, bs)
+    return "(fill_nb (RM0 [%s] [%s]))" % (ats, bs)
 
 
 # ------------------------------------------------------------------ RWMol contents (mirror of twmol)
